@@ -99,6 +99,31 @@ def viewL : List Op → List Op
   | o :: r => view o :: viewL r
 end
 
+/-! ## the reverse names what the op made -/
+
+/-- `r` has the shape of an undo of `o`: the inverse kind, the same table and schema, and the same
+object - for a constraint also the same constraint *type*, which the DDL of `drop_constraint`
+depends on (MySQL: DROP PRIMARY KEY / DROP FOREIGN KEY / DROP INDEX / DROP CHECK) -/
+def undoesShape : Op → Op → Bool
+  | .createTable t _, .dropTable n s _ _ _ _ => n == t.name && s == t.schema
+  | .dropTable n s _ _ _ _, .createTable t _ => t.name == n && t.schema == s
+  | .addColumn t s c _, .dropColumn t' s' c' _ _ => t' == t && s' == s && c' == c.name
+  | .dropColumn t s _ _ rev, .addColumn t' s' c _ => t' == t && s' == s && rev == some c
+  | .createIndex ix _, .dropIndex n t s _ _ _ => n == ix.name && t == ix.table && s == ix.schema
+  | .dropIndex n t s _ _ _, .createIndex ix _ => ix.name == n && ix.table == t && ix.schema == s
+  | .addConstraint c, .dropConstraint n t s ty _ =>
+    n == c.name && t == c.table && s == c.schema && ty == some c.kind
+  | .dropConstraint n t s _ rev, .addConstraint c =>
+    c.name == n && c.table == t && c.schema == s && (rev.map (·.kind)) == some c.kind
+  | .alterColumn a, .alterColumn b =>
+    b.table == a.table && b.schema == a.schema &&
+    b.column == (match a.modifyName with | some n => n | none => a.column)
+  | .createTableComment t s _ e, .dropTableComment t' s' _ => t' == t && s' == s && e.isNone
+  | .createTableComment t s _ e, .createTableComment t' s' c' _ => t' == t && s' == s && e.isSome && c' == e
+  | .dropTableComment t s e, .createTableComment t' s' c' _ => t' == t && s' == s && c' == e
+  | .modifyTable t s _, .modifyTable t' s' _ => t' == t && s' == s
+  | _, _ => false
+
 /-! ## reversible ops -/
 
 def Alter.complete (a : Alter) : Bool :=
